@@ -12,7 +12,9 @@
 //!   mute <p> <0|1>                           1: every datagram sent by p is dropped at delivery time
 //!   mfault <drop|dup|hold> <from|-1> <to|-1> <SPDP|SEDP|ANY> <times|-1>   rule on METAtraffic datagrams
 //!   lease <p> <ns>                           rewrite PID_PARTICIPANT_LEASE_DURATION in SPDP datagrams sent by p
+//!   xdeliver <q> <p>                         deliver the latest SPDP announcement of q to p (any domain)
 //!   jump <ns>                                set the clock forward by ns in ONE step (one worker wake), then settle
+//!   wake <p>                                 force one worker iteration now (API call on p); reports clock bumps
 //!   now                                      simulated clock
 //!   dst <w>                                  destinations (participant:reader) of DATA/HEARTBEAT/GAP sent by writer w since the last dst/sent
 //!   net additionally reports the delivered metatraffic: S<q>><p> SPDP data, X<q>><p> SPDP dispose/unregister,
@@ -692,6 +694,35 @@ impl World {
                 format!("jump {}", self.spin.lock().unwrap().spins - before)
             }
             "now" => format!("now {}", self.sim.now()),
+            "wake" => {
+                // forces one worker iteration at the current simulated time (an API call is a mail)
+                let before = self.spin.lock().unwrap().spins;
+                if let Some(p) = self.parts.get(u(1)) {
+                    let _ = self.sim.run(p.get_discovered_participants(), BUDGET);
+                }
+                self.sim.settle();
+                format!("wake {}", self.spin.lock().unwrap().spins - before)
+            }
+            "xdeliver" => {
+                // hands the latest SPDP announcement of participant q to participant p whatever their
+                // domains are (a datagram that reaches a foreign domain's port)
+                let (q, p) = (u(1), u(2));
+                let found = {
+                    let log = self.sim.shared.sent_log.lock().unwrap();
+                    log.iter().rev().find(|(from, _, meta, b)| *from == q && *meta && meta_class(b) == 'S').map(|x| x.3.clone())
+                };
+                match found {
+                    Some(mut bytes) => {
+                        if let Some(ns) = self.leases.get(&q) {
+                            patch_lease(&mut bytes, *ns);
+                        }
+                        let pk = Packet { id: 0, from: q, to: p, meta: true, bytes, held: false };
+                        self.sim.deliver_packet(&pk);
+                        "xd 1".into()
+                    }
+                    None => "xd 0".into(),
+                }
+            }
             "qR" => {
                 let m = kv(&t[2..]);
                 let rd = &self.readers[u(1)];
